@@ -467,3 +467,56 @@ def _names(tasks):
         c = t.get_coro()
         out.append(getattr(c, '__qualname__', repr(c))[:40])
     return out
+
+
+# ---------------------------------------------------------------------------- C19
+
+class WindowMonitor:
+    """Bytes written per directed connection between two global quiescence points (virtual times)."""
+
+    name = 'window'
+
+    def __init__(self, t_open=10.0, t_close=20.0):
+        self.t_open, self.t_close = t_open, t_close
+        self.snap = {}
+
+    def attach(self, w, case):
+        w.net.keep_log = True
+
+    def _snapshot(self, w):
+        out = {}
+        for conn in w.net.conns:
+            out[(conn.client, conn.server)] = conn.c2s.written
+            out[(conn.server, conn.client)] = conn.s2c.written
+        return out
+
+    def on_clock_jump(self, w, nxt):
+        # the clock only moves when no party can move and nothing is in flight: global quiescence
+        if w.now < self.t_open <= nxt and 'open' not in self.snap:
+            self.snap['open'] = self._snapshot(w)
+        if w.now < self.t_close <= nxt and 'close' not in self.snap:
+            self.snap['close'] = self._snapshot(w)
+
+    def traffic(self):
+        if 'open' not in self.snap or 'close' not in self.snap:
+            return None
+        a, b = self.snap['open'], self.snap['close']
+        return {k: b[k] - a.get(k, 0) for k in b if b[k] - a.get(k, 0)}
+
+    def window_frames(self, w):
+        """Frames (label, payload) written inside the window, per directed connection."""
+        a, b = self.snap.get('open'), self.snap.get('close')
+        out = {}
+        if a is None or b is None:
+            return out
+        for conn in w.net.conns:
+            for key, pipe in (((conn.client, conn.server), conn.c2s), ((conn.server, conn.client), conn.s2c)):
+                lo, hi = a.get(key, 0), b[key]
+                if hi > lo:
+                    _, fr, rest = parse_stream(pipe.log[lo:hi], 0)
+                    out[key] = fr
+        return out
+
+    def finish(self, w, res):
+        res.info['window_traffic'] = self.traffic()
+        res.info['window_monitor'] = self
